@@ -143,7 +143,7 @@ pub struct MT107 {
     pub field_72: Option<Field72>,
 
     /// Transaction details (Sequence B)
-    #[serde(rename = "#")]
+    #[serde(rename = "#", default)]
     pub transactions: Vec<MT107Transaction>,
 
     /// Settlement amount (Field 32B, Sequence C)
